@@ -258,6 +258,17 @@ def r2(run: Run, src):
         o_it = ast.unparse(outer[0].iter)
         i_it = ast.unparse(nest[[f for f, _ in nest].index(outer[0])][1][0].iter)
         ok = '.row' in o_it and '.column' in i_it and '.column' not in o_it and '.row' not in i_it
+    elif not fors:
+        # nested comprehension: [[cell for column in columns] for row in rows] -- the outer list is built by the comprehension
+        # whose element is the inner list
+        comps = [c for c in ast.walk(fi.node) if isinstance(c, ast.ListComp) and isinstance(c.elt, ast.ListComp) and
+                 len(c.generators) == 1 and len(c.elt.generators) == 1]
+        if len(comps) == 1:
+            o_it = ast.unparse(comps[0].generators[0].iter)
+            i_it = ast.unparse(comps[0].elt.generators[0].iter)
+            ok = '.row' in o_it and '.column' in i_it and '.column' not in o_it and '.row' not in i_it
+        else:
+            raise AnalysisError('C02.R2', '_get_matrix: neither nested loops nor a nested comprehension')
     run.check(ok, 'C02.R2', 'Excel._get_matrix/loop-order', 'column-major',
               'the rectangular area is not enumerated with rows in the outer loop and columns in the inner loop (row-major order)',
               fact='rows outer, columns inner', loc=loc_of(fi.module.path, fi.node))
